@@ -213,6 +213,32 @@ def runtime_checks():
             got = cb.enforce(netK, full(r_)).detach()
             if not torch.allclose(got, want.expand(n, 3), rtol=1e-13, atol=0):
                 bad.append(dict(case='coefficient data of very different magnitudes', violated=nm, got=got[0].tolist(), want=want.tolist()))
+    # coefficient tables of whole numbers (integer tensors / float64 tables with a float32 network): radii are not rounded to the table's type
+    for dt in (torch.int64, torch.int32, torch.float64, torch.float16):
+        R0, R1 = torch.tensor([1, 0, -2]).to(dt), torch.tensor([0, 3, 1]).to(dt)
+        from neurodiffeq.conditions import InfDirichletBVPSphericalBasis
+        netK = FCNN(1, 3, hidden_units=(6,))
+        for cname, cb, pts in (('DirichletBVPSphericalBasis', DirichletBVPSphericalBasis(0.5, R0, 2.5, R1), ((0.5, R0), (2.5, R1))),
+                               ('DirichletBVPSphericalBasis (inner only)', DirichletBVPSphericalBasis(0.5, R0), ((0.5, R0),)),
+                               ('InfDirichletBVPSphericalBasis', InfDirichletBVPSphericalBasis(0.5, R0, R1), ((0.5, R0), (1.0e6, R1)))):
+            for r_, want in pts:
+                try:
+                    got = cb.enforce(netK, full(r_)).detach()
+                    if not torch.allclose(got.double(), want.double().expand(n, 3), rtol=0, atol=2e-3 if dt == torch.float16 else 1e-6):
+                        bad.append(dict(case='coefficient table of another dtype than the radii', condition=cname, dtype=str(dt), r=r_,
+                                        violated='R(r) is not the table at that radius', got=got[0].tolist(), want=want.tolist()))
+                except Exception as e:
+                    bad.append(dict(case='coefficient table of another dtype than the radii', condition=cname, dtype=str(dt), r=r_, error=f'{type(e).__name__}: {e}'))
+            # strictly between the radii the network output still matters (the constraint does not swallow the network)
+            if 'inner' not in cname:
+                a = cb.enforce(netK, full(1.3)).detach()
+                with torch.no_grad():
+                    for p_ in netK.parameters():
+                        p_.add_(0.37)
+                b = cb.enforce(netK, full(1.3)).detach()
+                if torch.equal(a, b):
+                    bad.append(dict(case='coefficient table of another dtype than the radii', condition=cname, dtype=str(dt), r=1.3,
+                                    violated='between the radii the result does not depend on the network'))
     return bad
 
 
